@@ -51,8 +51,11 @@ fn op_strategy() -> impl Strategy<Value = Op> {
 
 pub fn strategy(tier: Tier) -> BoxedStrategy<Case> {
     let (maxdim, maxops) = tier.pick((8usize, 60usize), (16, 120));
-    (1..=maxdim, 1..=maxdim, proptest::collection::vec(op_strategy(), 0..=maxops), prop_oneof![1700 => Just(0u8), 150 => Just(1u8), 150 => Just(2u8), 1 => Just(3u8), 1 => Just(4u8)])
+    (1..=maxdim, 1..=maxdim, proptest::collection::vec(op_strategy(), 0..=maxops), prop_oneof![1700 => Just(0u8), 150 => Just(1u8), 150 => Just(2u8), 1 => Just(3u8), 1 => Just(4u8), 20 => Just(5u8), 20 => Just(6u8)])
         .prop_map(|(rows, cols, ops, big)| match big {
+            // heavy lines: 200..=359 rows (or columns), at most 3 lines the other way, nearly full before the history starts
+            5 => Case { rows: 200 + rows * 20 - 1, cols: cols.min(3), ops: ops.into_iter().take(30).collect(), big },
+            6 => Case { rows: rows.min(3), cols: 200 + cols * 20 - 1, ops: ops.into_iter().take(30).collect(), big },
             1 => Case { rows: 130, cols: cols.min(4), ops, big },
             2 => Case { rows: rows.min(4), cols: 130, ops, big },
             3 => Case { rows: 65_600, cols: cols.min(3), ops: ops.into_iter().take(16).collect(), big },
@@ -173,8 +176,29 @@ pub fn check(case: &Case, p: &mut Probe) -> Check {
     // lines walked by the comparison after every step
     let row_list: Vec<usize> = if big == 3 { ALIASED16.to_vec() } else { (0..rows).collect() };
     let col_list: Vec<usize> = if big == 4 { ALIASED16.to_vec() } else { (0..cols).collect() };
-    p.class_if(big >= 3, "dimension-65600-aliased-indices");
-    p.class_if(big != 0, "dimension-130-aliased-indices");
+    p.class_if(big == 3 || big == 4, "dimension-65600-aliased-indices");
+    p.class_if(big == 1 || big == 2, "dimension-130-aliased-indices");
+    if big == 5 || big == 6 {
+        // lines of weight in the hundreds: filled by the bulk insertions before the history starts
+        p.class("heavy-lines");
+        for r in 0..rows {
+            for c in 0..cols {
+                if (r * 7 + c * 3) % 11 != 0 {
+                    model.insert((r, c));
+                }
+            }
+        }
+        if big == 5 {
+            for c in 0..cols {
+                h.insert_col(c, model.iter().filter(|e| e.1 == c).map(|e| e.0));
+            }
+        } else {
+            for r in 0..rows {
+                h.insert_row(r, model.iter().filter(|e| e.0 == r).map(|e| e.1));
+            }
+        }
+        compare(&h, &model, rows, cols, 0)?;
+    }
     let cell = |a: u16, b: u16, existing: bool, model: &BTreeSet<(usize, usize)>| -> (usize, usize) {
         if existing && !model.is_empty() {
             *model.iter().nth(idx(a, model.len())).unwrap()
@@ -333,7 +357,7 @@ pub fn property() -> Property {
             }),
             Box::new(Sub {
             name: "model",
-            rule: "histories of 0..=60 (thorough 120) operations {insert, remove, toggle, clear_row/col, set_row/col, insert_row/col} on shapes 1..=8 (16) squared, one history in seven on a matrix with 130 rows (or columns) whose generated indices agree modulo 64 (0, 1, 2, 63..66, 127..129), one in 1000 on a matrix with 65 600 rows (or columns) and indices that agree modulo 2^16 (short histories; only the touched lines and the all-entries iterator are walked), half of the cell operations aimed at entries currently present; after every step every query of the real matrix is compared with a BTreeSet model; non-trivial = a deletion that removed something followed by an insertion into the same row or column; distinct by digest of the whole history",
+            rule: "histories of 0..=60 (thorough 120) operations {insert, remove, toggle, clear_row/col, set_row/col, insert_row/col} on shapes 1..=8 (16) squared, one history in seven on a matrix with 130 rows (or columns) whose generated indices agree modulo 64 (0, 1, 2, 63..66, 127..129), one in 50 on a matrix of 219..=359 by at most 3 (or transposed) whose lines hold hundreds of entries before the history starts, one in 1000 on a matrix with 65 600 rows (or columns) and indices that agree modulo 2^16 (short histories; only the touched lines and the all-entries iterator are walked), half of the cell operations aimed at entries currently present; after every step every query of the real matrix is compared with a BTreeSet model; non-trivial = a deletion that removed something followed by an insertion into the same row or column; distinct by digest of the whole history",
             cases: |t| t.pick(300_000, 10_000_000),
             strategy,
             check,
